@@ -44,7 +44,7 @@ func zzQ2() int64 { return 257 }
 //
 //verif:property C02
 //verif:expect-reach end
-//verif:bound abstract prime-order group of order 257 in place of the curve (order 65537 was tried for the thorough tier: a feasibility query comes back unknown after 600 s); d in [1,q-2]; coordinates of 4/4, 32/4 and 4/32 significant bytes; plaintext length 1..2 (quick) / each of {1,2,3,16,31,32,33} (thorough), content symbolic; both orders; SM3 and the KDF arbitrary functions of their inputs (an all-zero keystream at most once per run, so Encrypt's retry loop runs at most twice); nonce bytes symbolic
+//verif:bound abstract prime-order group of order 257 in place of the curve (order 65537 was tried for the thorough tier: a feasibility query comes back unknown after 600 s); d in [1,q-2]; plaintext length 1..2 (quick) / each of {1,2,3,16,31,32,33} (thorough), content symbolic; both orders; SM3 and the KDF arbitrary functions of their inputs (an all-zero keystream at most once per run, so Encrypt's retry loop runs at most twice); nonce bytes symbolic
 //verif:outside the real curve arithmetic (C03); ASN.1 form (reflection-driven encoding/asn1)
 //verif:stub-symbolic github.com/tjfoc/gmsm/sm3.Sm3Sum zzStubSm3Sum02
 //verif:stub-symbolic github.com/tjfoc/gmsm/sm2.kdf zzStubKdf02
@@ -77,10 +77,7 @@ func zzH_c02_roundtrip() {
 		}
 		return
 	}
-	// shared-point coordinates of equal and of different byte lengths (4/4, 32/4, 4/32), so that
-	// the left-padding of x2 and of y2 to 32 bytes is exercised separately
-	shape := [][2]int{{4, 4}, {32, 4}, {4, 32}}[vChoice("coordBytes", 3)]
-	g := zzNewGroupShape(zzQ2(), shape[0], shape[1])
+	g := zzNewGroup(zzQ2())
 	priv, _ := zzKey(g, "d")
 	zzKdfEncrypting = true
 	ct, err := Encrypt(&priv.PublicKey, m, &zzRand{}, mode)
@@ -349,5 +346,51 @@ func zzH_c02_tamper() {
 	if derr == nil {
 		vAssert("accepted-plaintext-is-the-hashed-one", bytes.Equal(pt, mm))
 	}
+	vReach("end")
+}
+
+// H02-roundtrip-shapes: the round trip when the shared point's coordinates have different byte
+// lengths - a full 32-byte x2 next to a short y2 and the other way round - so that the
+// left-padding of x2 and of y2 to 32 bytes is exercised separately (on the 4/4 group of
+// H02-roundtrip a padding decision taken from the wrong coordinate goes unnoticed).
+//
+//verif:property C02
+//verif:expect-reach end
+//verif:bound abstract group of order 257 whose points have coordinates of 32/4 resp. 4/32 significant bytes; keys d in {1, 2, 100}; one-byte plaintext (symbolic); both orders; SM3 and the KDF arbitrary functions; nonce bytes symbolic
+//verif:outside as H02-roundtrip
+//verif:stub-symbolic github.com/tjfoc/gmsm/sm3.Sm3Sum zzStubSm3Sum02
+//verif:stub-symbolic github.com/tjfoc/gmsm/sm2.kdf zzStubKdf02
+//verif:unwind 200
+func zzH_c02_roundtrip_shapes() {
+	mode := vChoice("mode", 2)
+	m := vBytes("m", 1, 1)
+	if vNative() {
+		priv, _ := GenerateKey(rand.Reader)
+		for i := 0; i < 3000; i++ {
+			ct, err := Encrypt(&priv.PublicKey, m, rand.Reader, mode)
+			vAssert("encrypt-ok", err == nil)
+			pt, err := Decrypt(priv, ct, mode)
+			vAssert("decrypt-ok", err == nil)
+			vAssert("roundtrip", bytes.Equal(pt, m))
+		}
+		return
+	}
+	shape := [][2]int{{32, 4}, {4, 32}}[vChoice("coordBytes", 2)]
+	g := zzNewGroupShape(257, shape[0], shape[1])
+	d := []int64{1, 2, 100}[vChoice("d", 3)]
+	priv := new(PrivateKey)
+	priv.Curve, priv.D = g, big.NewInt(d)
+	priv.X, priv.Y = g.point(d)
+	zzKdfEncrypting = true
+	ct, err := Encrypt(&priv.PublicKey, m, &zzRand{}, mode)
+	zzKdfEncrypting = false
+	vAssert("encrypt-ok", err == nil)
+	if err != nil {
+		return
+	}
+	vAssert("layout", len(ct) == 98 && ct[0] == 4)
+	pt, err := Decrypt(priv, ct, mode)
+	vAssert("decrypt-ok", err == nil)
+	vAssert("roundtrip", bytes.Equal(pt, m))
 	vReach("end")
 }
